@@ -7,6 +7,26 @@ let queue = 80
 
 type page = { idx : int; acc : int; data : Bytes.t }
 
+(* fast conversions for small values (bytes, addresses below 2^32) *)
+let rec int_of_pos = function XH -> 1 | XO p -> 2 * int_of_pos p | XI p -> (2 * int_of_pos p) + 1
+let rec pos_bits = function XH -> 1 | XO p | XI p -> 1 + pos_bits p
+let fint (x : n) : int = match x with N0 -> 0 | Npos p -> int_of_pos p
+(* None when the value does not fit 40 bits *)
+let fint_opt (x : n) : int option = match x with N0 -> Some 0 | Npos p -> if pos_bits p > 40 then None else Some (int_of_pos p)
+let hexd = "0123456789abcdef"
+let hex_of_bytes (l : n list) : string =
+  if l = [] then "-"
+  else begin
+    let b = Buffer.create 64 in
+    List.iter (fun x -> let v = fint x in Buffer.add_char b hexd.[v lsr 4]; Buffer.add_char b hexd.[v land 15]) l;
+    Buffer.contents b
+  end
+let string_of_nbytes (l : n list) : string =
+  let b = Buffer.create 64 in
+  List.iter (fun x -> Buffer.add_char b (Char.unsafe_chr (fint x))) l;
+  Buffer.contents b
+let blake_n (l : n list) : n list = nbytes_of_string (Blake2bFast.blake2b256 (string_of_nbytes l))
+
 let fill_byte fill k = (fill + k + (k lsr 8)) land 255
 
 let digest8 (s : string) : string =
@@ -19,7 +39,7 @@ let hex_of_string (s : string) : string =
   if s = "" then "-"
   else begin
     let b = Buffer.create (2 * String.length s) in
-    String.iter (fun c -> Buffer.add_string b (Printf.sprintf "%02x" (Char.code c))) s;
+    String.iter (fun c -> let v = Char.code c in Buffer.add_char b hexd.[v lsr 4]; Buffer.add_char b hexd.[v land 15]) s;
     Buffer.contents b
   end
 
@@ -114,23 +134,20 @@ let c07_model toks_l =
         let a = ZA.add addr (ZA.of_int i) in
         if ZA.lt a (ZA.shift_left ZA.one 32) then begin
           let a = ZA.to_int a in
-          match find_page (a / zp) with Some pg -> Bytes.set pg.data (a mod zp) (Char.chr (int_of_n x)) | None -> ()
+          match find_page (a / zp) with Some pg -> Bytes.set pg.data (a mod zp) (Char.chr (fint x)) | None -> ()
         end)
       data
   done;
   let initial = List.map (fun pg -> (pg.idx, Bytes.copy pg.data)) pages in
   let m_acc (p : n) : access =
-    let pz = za_of_n p in
-    if ZA.gt pz (ZA.of_int 0x7fffffff) then Inacc
-    else match find_page (ZA.to_int pz) with Some { acc = 1; _ } -> RO | Some { acc = 2; _ } -> RW | _ -> Inacc
+    match fint_opt p with
+    | None -> Inacc
+    | Some p -> (match find_page p with Some { acc = 1; _ } -> RO | Some { acc = 2; _ } -> RW | _ -> Inacc)
   in
   let m_byte (a : n) : n =
-    let az = za_of_n a in
-    if ZA.geq az (ZA.shift_left ZA.one 32) then N0
-    else begin
-      let a = ZA.to_int az in
-      match find_page (a / zp) with Some pg -> byte_tab.(Char.code (Bytes.get pg.data (a mod zp))) | None -> N0
-    end
+    match fint_opt a with
+    | None -> N0
+    | Some a -> (match find_page (a / zp) with Some pg -> byte_tab.(Char.code (Bytes.unsafe_get pg.data (a mod zp))) | None -> N0)
   in
   let mem = { m_acc; m_byte } in
   expect "T";
@@ -227,20 +244,23 @@ let c07_model toks_l =
   let finish_mem (mem' : memory) (wr : (n * n list) option) =
     (match wr with
      | None -> ()
+     | Some (_, []) -> ()
      | Some (o, dt) ->
-       let o = ZA.to_int (za_of_n o) in
-       List.iteri
-         (fun i x ->
-           let a = o + i in
-           match find_page (a / zp) with Some pg -> Bytes.set pg.data (a mod zp) (Char.chr (int_of_n x)) | None -> ())
-         dt);
+       (match fint_opt o with
+        | None -> failwith "write outside the address space"
+        | Some o ->
+          List.iteri
+            (fun i x ->
+              let a = o + i in
+              match find_page (a / zp) with Some pg -> Bytes.set pg.data (a mod zp) (Char.chr (fint x)) | None -> ())
+            dt));
     incr sample;
     if !sample mod 40 = 0 then
       List.iter
         (fun pg ->
           for k = 0 to zp - 1 do
             let a = n_of_int ((pg.idx * zp) + k) in
-            if int_of_n (mem'.m_byte a) <> Char.code (Bytes.get pg.data k) then failwith "driver write disagrees with mem_after"
+            if fint (mem'.m_byte a) <> Char.code (Bytes.get pg.data k) then failwith "driver write disagrees with mem_after"
           done)
         pages;
     let runs = ref [] in
@@ -293,7 +313,7 @@ let c07_model toks_l =
   in
   let rst : rctx = List.init nex (fun i -> List.init 4104 (fun _ -> byte_tab.((i + 1) land 255))) in
   match kind with
-  | "acc" -> acc_out (acc_call blake2b_fast_n env (acc_table (n_of_string id_tok)) regs gas mem (x, y))
+  | "acc" -> acc_out (acc_call blake_n env (acc_table (n_of_string id_tok)) regs gas mem (x, y))
   | "ref" -> (
     match ref_table (n_of_string id_tok) with
     | None -> "UNMODELLED"
@@ -301,7 +321,7 @@ let c07_model toks_l =
   | "auth" -> ref_out (ref_call env (auth_table (n_of_string id_tok)) regs gas mem rst)
   | "dacc" ->
     let c = acc_table (sign_extend_imm id_tok) in
-    acc_out (through_loop (fun g -> acc_call blake2b_fast_n env c regs g mem (x, y)) (x, y))
+    acc_out (through_loop (fun g -> acc_call blake_n env c regs g mem (x, y)) (x, y))
   | "dref" -> (
     match ref_table (sign_extend_imm id_tok) with
     | None -> "UNMODELLED"
